@@ -24,7 +24,7 @@ var c02 = core.Register(&core.Prop{
 	Shards: func(tier string) int { return pickTier(tier, 8, 16) },
 	Floors: func(c map[string]int64, tier string) []string {
 		var out []string
-		for _, k := range []string{"agree_accept", "agree_reject", "prog_cases", "triple_cases", "context_cases", "long_flat_cases", "ladder_cases", "chain_cases", "stray_character_cases"} {
+		for _, k := range []string{"agree_accept", "agree_reject", "prog_cases", "triple_cases", "context_cases", "long_flat_cases", "ladder_cases", "chain_cases", "stray_character_cases", "postfix_many_breaks_cases"} {
 			if c[k] == 0 {
 				out = append(out, "coverage floor: no "+k)
 			}
@@ -362,6 +362,26 @@ func runC02(w *core.W) {
 			sb.WriteString([]string{" ", "", "\n"}[r.Intn(3)] + st)
 		}
 		run("stray-character", []byte(sb.String()), "", "stray_character_cases")
+	}
+	// 5d. any NUMBER of line breaks between a target and its postfix: still not on the target's line
+	bi := 0
+	for _, n := range []int{2, 3, 127, 128, 129, 255, 256, 257, 511, 512, 513, 1024, 4096, 32768, 65536} {
+		for _, br := range []string{"\n", "\r\n", "\r", "\u2028", "\u0085", "\n \t", "\n\r"} {
+			if n*len(br) > 200000 {
+				continue
+			}
+			for ti, target := range []string{"a", "f(1)", "a.b", "(a)", "[1]", "a!.b", "this"} {
+				post := []string{".b", "!.b", "(1)", ".b(2)", "()"}[(ti+bi)%5]
+				if bi++; !w.Mine(bi) {
+					continue
+				}
+				gap := strings.Repeat(br, n)
+				run("postfix-after-many-line-breaks", []byte(target+gap+post), "", "postfix_many_breaks_cases")
+				run("postfix-after-many-line-breaks", []byte("x + "+target+gap+post+" * 2"), "", "postfix_many_breaks_cases")
+				// the same gap in front of a token that may start a line: accepted
+				run("operator-after-many-line-breaks", []byte(target+gap+"+ 1"), "", "postfix_many_breaks_cases")
+			}
+		}
 	}
 	// 6. mutants of valid programs (near-miss inputs on the reject side)
 	r = w.RNG("prog-mut")
